@@ -869,15 +869,16 @@ Proof.
 Qed.
 
 (* a reconstruction is always reported: in the whole view model, r_recon implies a warning *)
-Lemma after_parse_recon recover file l recon_of st :
+Lemma after_parse_recon recover file l pc recon_of st :
   rs_warned recon_of = true -> (rs_recon st = true -> rs_warned st = true) ->
-  rs_recon (rc_after_parse recover file l recon_of st) = true ->
-  rs_warned (rc_after_parse recover file l recon_of st) = true.
+  rs_recon (rc_after_parse recover file l pc recon_of st) = true ->
+  rs_warned (rc_after_parse recover file l pc recon_of st) = true.
 Proof.
   intros Hr Hst. unfold rc_after_parse.
   assert (RD : forall st0 og, (rs_recon st0 = true -> rs_warned st0 = true) ->
-               let '(s1, _) := rc_resolve_dict recover file l recon_of st0 og in rs_recon s1 = true -> rs_warned s1 = true).
+               let '(s1, _) := rc_resolve_dict recover file l pc recon_of st0 og in rs_recon s1 = true -> rs_warned s1 = true).
   { intros st0 og H0. unfold rc_resolve_dict.
+    destruct (rc_pc_hit pc og); [exact H0|].
     destruct (rc_lookup og (rs_table st0)) as [off|]; [|exact H0].
     destruct (off =? 0); [intros _; reflexivity|].
     destruct (rc_header_ok file l og off); [exact H0|].
@@ -885,7 +886,7 @@ Proof.
     destruct (rc_lookup og (rs_table recon_of)); intros _; exact Hr. }
   destruct (rs_root st) as [root|]; [|simpl; exact Hst].
   pose proof (RD st root Hst) as R1.
-  destruct (rc_resolve_dict recover file l recon_of st root) as [st1 rd].
+  destruct (rc_resolve_dict recover file l pc recon_of st root) as [st1 rd].
   destruct rd as [d|]; [|simpl; exact R1].
   assert (R2 : forall st2 (b : bool) (rt : option rc_og), (rs_recon st2 = true -> rs_warned st2 = true) ->
           rs_recon (if negb b then mkRS (rs_table st2) (rs_recon st2) (rs_warned st2) true rt
@@ -904,7 +905,7 @@ Proof.
     - simpl. intros H. rewrite (H2 H). reflexivity. }
   destruct (dict_get d rc_n_Pages) as [[ |b0|z0|sp0|s0|nm0|l0|d0|n g]|]; try (cbv iota beta zeta; apply (R2 st1 _ _ R1)).
   pose proof (RD st1 (Z.of_N n, Z.of_N g) R1) as R3.
-  destruct (rc_resolve_dict recover file l recon_of st1 (Z.of_N n, Z.of_N g)) as [s2 pd].
+  destruct (rc_resolve_dict recover file l pc recon_of st1 (Z.of_N n, Z.of_N g)) as [s2 pd].
   cbv iota beta zeta. apply (R2 s2 _ _ R3).
 Qed.
 
